@@ -40,16 +40,27 @@ RULE = ('Inputs: random bytes (with and without a valid e_ident prefix); EVERY t
         'inside a region the battery reads (Ehdr, section/program header tables, dynamic/note/hash payloads), or, '
         'for seedless random inputs, passes _identify_file and is long enough for the Ehdr to parse. Distinct by '
         'SHA-1 of the input bytes.')
-N = {'quick': 6400, 'thorough': 400000}
+N = {'quick': 4800, 'thorough': 240000}
 
-# Work bounds.  Measured with `python -m vf.checks.c19 measure` on the unchanged tree (python 3.12):
-# over the 20 generated seeds and all 110 non-empty shipped ELF files the most expensive battery step is
-# iter_sections, at most 0.67 line events per max(len,64 KiB) byte on files < 64 KiB (43 744 events, 42 sections +
-# DynamicSegment name scan) and 10.0 on the largest ratio (dwarf_gnuops4.so.elf); requested bytes at most
-# 1.31 per byte.  See ASSUMPTIONS for the final numbers.
+# Work bounds, per battery step:  lines <= LINE_B[step] * max(len, 64 KiB),  bytes <= BYTE_B * max(len, 64 KiB).
+# Calibration (`python -m vf.checks.c19 measure`, unchanged tree, CPython 3.12, 20 generated seeds + the 109
+# shipped ELF files that open, dwarf_phantombytes.elf excluded from the byte figures because its debug sections
+# are typed SHT_NOTE and readelf itself reports "note with invalid namesz and/or descsz" for them):
+#   largest line-event count per max(len,64 KiB) byte      largest absolute count on a file <= 64 KiB
+#     iter_sections        0.790 (arm_exidx_test.o, 145 884 events, 508 sections, 184 628 B)     14 221
+#     iter_segments        0.194 (debuglink.debug, 12 705 events, 13 segments, 6 032 B)           12 705
+#     iter_tags            0.089 (android_dyntags.elf)                                              5 816
+#     dynseg.num_symbols   0.073 (angr-eh_frame.elf)                                                3 957
+#     iter_notes           0.037 (note_tc3xxx_blinky.elf, 120 355 events, 3 288 400 B)              1 973
+#     every other step   < 0.004                                                                  <= 255
+#   bytes delivered per step: at most 0.416 per byte (iter_notes, note_tc3xxx_blinky.elf); largest single read()
+#   request: 0.005 per byte (1 088 bytes, core_linux32.elf); including dwarf_phantombytes.elf: 4.9 and 45.7.
+# The constants are >= 100 x these ratios (A = 0):
 SIZE_FLOOR = 65536
-LINE_A, LINE_B = 0, 80        # budget = 80 * max(len, 64 KiB) >= 5 242 880 line events per battery step
-BYTE_A, BYTE_B = 0, 256       # bound = 256 * max(len, 64 KiB) >= 16 MiB, for bytes read per step and for one read()
+LINE_A = 0
+LINE_B = {'iter_sections': 80}    # 80 * 64 KiB = 5 242 880 line events (368 x the small-file maximum)
+LINE_B_DEFAULT = 20               # 20 * 64 KiB = 1 310 720 line events (103 x the small-file maximum of 12 705)
+BYTE_A, BYTE_B = 0, 256           # 256 * 64 KiB = 16 MiB, for bytes delivered per step and for a single read() request
 
 ASSUMPTIONS = [
     'streams are io.BytesIO (subclass counting requested bytes); read(n) on BytesIO never allocates more than the '
@@ -142,8 +153,8 @@ class CountingBytesIO(io.BytesIO):
         return r
 
 
-def line_budget(n):
-    return LINE_A + LINE_B * max(n, SIZE_FLOOR)
+def line_budget(n, step):
+    return LINE_A + LINE_B.get(step, LINE_B_DEFAULT) * max(n, SIZE_FLOOR)
 
 
 def byte_budget(n):
@@ -157,8 +168,8 @@ class Battery:
              'hash.get_number_of_symbols', 'iter_tags', 'dynseg.num_symbols', 'iter_notes', 'num_versions')
 
     def __init__(self, ef, stream, nbytes, limit=None):
-        self.ef, self.stream = ef, stream
-        self.limit = line_budget(nbytes) if limit is None else limit
+        self.ef, self.stream, self.nbytes = ef, stream, nbytes
+        self.fixed_limit = limit
         self.work = {}       # step -> (line events, bytes requested, outcome)
         self.blown = []      # steps that exhausted the line budget
         self.excs = {}       # step -> exception type names seen
@@ -170,7 +181,7 @@ class Battery:
         if w[4] == 'budget':
             return None
         _m.n = w[0]
-        _m.limit = self.limit
+        _m.limit = line_budget(self.nbytes, step) if self.fixed_limit is None else self.fixed_limit
         st = self.stream
         st.reset()
         old = sys.gettrace()
@@ -540,7 +551,7 @@ def _model(kind, cls, le):
         {'name': '.gnu.version_d', 'sh_type': SHT_VERDEF, 'sh_flags': 2, 'sh_link': 2, 'sh_info': 1, 'sh_addralign': 4,
          'data': _verdef(le, o_v1)},
         {'name': '.dynamic', 'sh_type': SHT_DYNAMIC, 'sh_flags': 3, 'sh_link': 2, 'sh_addralign': 8,
-         'sh_entsize': W.DYN_SIZE[cls], 'data': b'\0' * (8 * W.DYN_SIZE[cls])},
+         'sh_entsize': W.DYN_SIZE[cls], 'data': b'\0' * (13 * W.DYN_SIZE[cls])},
         {'name': '.note.gnu.build-id', 'sh_type': SHT_NOTE, 'sh_flags': 2, 'sh_addralign': 4, 'data': notes},
         {'name': '.symtab', 'sh_type': 2, 'sh_link': 12, 'sh_info': 2, 'sh_addralign': 8, 'sh_entsize': W.SYM_SIZE[cls],
          'data': symtab},
@@ -562,7 +573,9 @@ def _model(kind, cls, le):
             s['sh_addr'] = 0x400000 + R['sh'][i]['sh_offset']
     addr = lambda i: 0x400000 + R['sh'][i]['sh_offset']
     dyn = [(1, o_lib), (4, addr(4)), (0x6ffffef5, addr(5)), (5, addr(2)), (6, addr(3)), (10, len(dynstr)),
-           (11, W.SYM_SIZE[cls]), (0, 0)]
+           (11, W.SYM_SIZE[cls]), (0x6ffffff0, addr(6)), (0x6ffffffe, addr(7)), (0x6fffffff, 1), (0x6ffffffc, addr(8)),
+           (0x6ffffffd, 1), (0, 0)]
+    assert len(dyn) * W.DYN_SIZE[cls] == len(secs[9]['data'])
     secs[9]['data'] = b''.join(W.enc_dyn(cls, le, t, v) for t, v in dyn)
     return m
 
@@ -752,8 +765,9 @@ def run_case(ctx, case):
             if outcome == 'budget':
                 ctx.fail('battery.line-budget|step=%s' % step,
                          'battery step %s still running after %d line events in elftools frames on a %d-byte input '
-                         '(budget %d + %d*max(len,%d) = %d); sections so far %d, segments so far %d'
-                         % (step, lines, len(data), LINE_A, LINE_B, SIZE_FLOOR, b.limit, nsec, nseg), case)
+                         '(budget %d*max(len,%d) = %d); sections so far %d, segments so far %d'
+                         % (step, lines, len(data), LINE_B.get(step, LINE_B_DEFAULT), SIZE_FLOOR,
+                            line_budget(len(data), step), nsec, nseg), case)
             elif outcome == 'memory':
                 ctx.fail('battery.MemoryError|step=%s' % step, 'battery step %s raised MemoryError on a %d-byte input'
                          % (step, len(data)), case)
@@ -769,6 +783,10 @@ def run_case(ctx, case):
         for step, names in b.excs.items():
             for nm in names:
                 ctx.count('battery.exc.%s' % nm)
+        if family == 'valid' and str(case.get('src', '')).startswith('gen:') and (b.excs or b.blown):
+            raise core.HarnessError('battery fails on the unmodified generated seed %s: %r' % (case['src'], b.excs))
+    elif family == 'valid' and str(case.get('src', '')).startswith('gen:'):
+        raise core.HarnessError('generated seed %s does not open' % case['src'])
     nt = nontrivial(case, data)
     if nt:
         ctx.count('nontrivial.' + family)
@@ -829,7 +847,7 @@ def enum_big_truncations(tier):
 
 
 def enum_byte_subst(tier):
-    cap = SMALL if tier == 'quick' else 1 << 16
+    cap = 2048 if tier == 'quick' else 1 << 16
     srcs = gen_seed_names() + ['file:' + p for p, sz in shipped_elfs() if sz <= cap]
     for src in srcs:
         seed = seed_bytes(src)
@@ -848,10 +866,11 @@ def enum_single_fields(tier):
             continue
         seed = seed_bytes(src)
         gen = src.startswith('gen:')
+        rich = gen and src not in ('gen:full32be', 'gen:full64le')   # the 14-section seed: full value set in 2 cells
         for fld in sc.fields:
             steer = fld['label'].split('.')[-1] not in NON_STEERING
             orig = _field_value(sc, seed, fld)
-            if tier == 'thorough' or (gen and steer):
+            if tier == 'thorough' or (rich and steer):
                 vals = boundary_values(fld, orig, len(seed))
             elif steer:
                 vals = pair_values(fld, orig, len(seed), 'quick')
@@ -891,7 +910,6 @@ ENUMS = (enum_truncations, enum_big_truncations, enum_byte_subst, enum_single_fi
 
 
 def bulk(ctx, tier, shard, nshards):
-    i = 0
     for en in ENUMS:
         for case in _sharded(en, tier, shard, nshards):
             ctx.cur_buckets = set()
@@ -902,9 +920,10 @@ def bulk(ctx, tier, shard, nshards):
 
 
 def _sharded(en, tier, shard, nshards):
-    """Yield every nshards-th case of the enumeration without materialising the others' bytes twice."""
+    """Every case of the enumeration belongs to exactly one shard; the index is scrambled so that the regular
+    structure of the enumerations (same field of every seed) does not pile the expensive cases onto one shard."""
     for i, case in enumerate(en(tier)):
-        if i % nshards == shard:
+        if (((i * 0x9E3779B1) & 0xffffffff) >> 15) % nshards == shard:
             yield case
 
 
